@@ -6,7 +6,9 @@
 // pointers) for the "valid until / across update" clause.
 #include <yorel/yomm2/core.hpp>
 
+#include <csignal>
 #include <cstdio>
+#include <cstring>
 #include <functional>
 #include <memory>
 #include <optional>
@@ -381,6 +383,21 @@ struct W {
                 s4 = vd;
                 check_shared("shared-assigned-converted", s4, &r, want_s);
             }
+            if constexpr (B == D) {
+                // final on the smart pointer itself: lvalue, const lvalue, rvalue
+                std::shared_ptr<TD> lv = sp;
+                const std::shared_ptr<TD> clv = sp;
+                check_shared("shared-final-lvalue",
+                             virtual_ptr<std::shared_ptr<TB>, P>(
+                                 virtual_ptr<std::shared_ptr<TD>, P>::final(lv)), &r, want_s);
+                check_shared("shared-final-const",
+                             virtual_ptr<std::shared_ptr<TB>, P>(
+                                 virtual_ptr<std::shared_ptr<TD>, P>::final(clv)), &r, want_s);
+                check_shared("shared-final-rvalue",
+                             virtual_ptr<std::shared_ptr<TB>, P>(
+                                 virtual_ptr<std::shared_ptr<TD>, P>::final(std::shared_ptr<TD>(sp))),
+                             &r, want_s);
+            }
             check_shared("shared-converted-rvalue",
                          virtual_ptr<std::shared_ptr<TB>, P>(virtual_ptr<std::shared_ptr<TD>, P>(sp)),
                          &r, want_s);
@@ -545,8 +562,21 @@ struct W {
     }
 };
 
+// names the case that was running when the program died (diagnostics only)
+static void on_fatal(int sig) {
+    const char* head = "fatal signal during: ";
+    (void)!write(2, head, strlen(head));
+    (void)!write(2, g_where.c_str(), g_where.size());
+    (void)!write(2, "\n", 1);
+    signal(sig, SIG_DFL);
+    raise(sig);
+}
+
 int main(int argc, char** argv) {
     int depth = argc > 1 ? atoi(argv[1]) : 4;
+    signal(SIGSEGV, on_fatal);
+    signal(SIGBUS, on_fatal);
+    signal(SIGABRT, on_fatal);
     W<PD>::run_routes();
     W<PC>::run_routes();
     W<PM>::run_routes();
